@@ -81,7 +81,7 @@ def check_model(ctx, C, T, pi, tag, rng):
     xs, cs = X.sum(axis=1), C.sum(axis=1)
     lhs = X * (cs / xs)[:, None] + X * (cs / xs)[None, :]
     rhs = C + C.T
-    res = np.abs(lhs - rhs).max() / max(1.0, rhs.max())
+    res = np.abs(lhs - rhs).max() / rhs.max()
     ctx.count('fixed_point_residuals')
     if res > 1e-5:
         ctx.violation('mle.%s.not-a-fixed-point' % tag,
@@ -124,6 +124,9 @@ def run_case(ctx, kind, rng, idx):
         rng, nmin=2, nmax=6 if san else (8 if quick else 12), asym=asym)
     if rng.random() < 0.15:
         C = C + C.T          # exactly symmetric input
+    if rng.random() < 0.2:
+        # the estimate is invariant under a common factor on the counts
+        C = C * float(10.0 ** int(rng.integers(-4, 5)))
     n = len(C)
     desc = {'n': n, 'dtype': str(C.dtype), 'asym': asym,
             'C': C if n <= 7 else 'elided'}
